@@ -312,7 +312,8 @@ def run_shard(shard, tier, seed, acc):
         # E2: the codec must have no memory - every sequence of <= 3 operations over a pool of values with
         # different numbers of significant digits; each operation's result is compared with the reference
         import itertools
-        ops = [("enc", n) for n in SEQ_POOL] + [("dec", n) for n in SEQ_POOL]
+        ops = [("enc", n) for n in SEQ_POOL] + [("dec", n) for n in SEQ_POOL] + \
+              [("fs", t) for t in SEQ_STRINGS]
         for ln in (2, 3):
             for seq in itertools.product(ops, repeat=ln):
                 v = run_seq(seq, acc)
@@ -328,13 +329,47 @@ STR_BASES = [0, LIMIT - 1, 0xde22bbe043bf448d9b832ee57e663285, B ** 21, 12345678
 SEQ_POOL = [LIMIT - 1, 0, 56, B ** 10 + 3, B ** 21 - 1, 0xde22bbe043bf448d9b832ee57e663285]
 
 
+def _case_variants():
+    """Strings for uuid_from_str / uuid_from_short_str inside sequences: valid short strings that differ only
+    in letter case (distinct values!), an invalid case variant, canonical spellings in both cases."""
+    base = ref_encode(0xde22bbe043bf448d9b832ee57e663285)          # 'hfDoPxAatD8tiFaSAL3oXh'
+    out = [base]
+    for k, ch in enumerate(base):
+        sw = ch.swapcase()
+        if sw != ch and sw in IDX:
+            out.append(base[:k] + sw + base[k + 1:])
+            if len(out) == 3:
+                break
+    out.append(base.lower())      # contains 'l'/'o'? only if valid it is accepted - the reference decides
+    canon = str(uuid.UUID(int=B ** 21 + 5))
+    out += [canon, canon.upper()]
+    return out
+
+
+SEQ_STRINGS = _case_variants()
+
+
+def _ref_from_str(t):
+    try:
+        return uuid.UUID(t).int
+    except ValueError:
+        return ref_decode(t)
+
+
 def run_seq(seq, acc):
     # every sequence starts from a pristine module state (module-level buffers, caches, default
     # arguments are re-created), so a failing sequence is self-contained and replays identically
     importlib.reload(impl)
     for k, (op, n) in enumerate(seq):
         acc.trans()
-        if op == "enc":
+        if op == "fs":
+            exp = _ref_from_str(n)
+            exp = "ValueError" if exp is None else exp
+            try:
+                got = impl.uuid_from_str(n).int
+            except Exception as e:  # noqa
+                got = type(e).__name__
+        elif op == "enc":
             try:
                 got = impl.uuid_to_short_str(uuid.UUID(int=n))
             except Exception as e:  # noqa
@@ -362,7 +397,7 @@ def replay(case, acc):
             acc.violation("C20:not-injective", case, "two UUIDs share one short string", [a, b, sa],
                           "distinct strings")
     elif case["kind"] == "seq":
-        _report(acc, run_seq([(o, int(n)) for o, n in case["ops"]], acc), case)
+        _report(acc, run_seq([(o, n if o == "fs" else int(n)) for o, n in case["ops"]], acc), case)
     elif case["kind"] == "str":
         _report(acc, check_str(case["value"], acc), case)
     else:
